@@ -906,7 +906,7 @@ func ruleNames() []string {
 
 func gen(t *rapid.T) Case {
 	examples := rapid.Bool().Draw(t, "examples")
-	raw := docgen.Conforming(t, docgen.Cfg{Examples: examples, Extensions: true, ReadWrite: examples, MaxPaths: 3})
+	raw := docgen.Conforming(t, docgen.Cfg{Examples: examples, Extensions: true, ReadWrite: examples, MaxPaths: 3, Aliases: true})
 	b, _ := json.Marshal(raw)
 	c := Case{Doc: b, Examples: examples}
 	if rapid.IntRange(0, 7).Draw(t, "mutate") > 0 {
